@@ -2,10 +2,13 @@
 from common import *
 
 THEOREM_OF = {
-    "un-inverse": "C12_inverse_cache_names_refuted",
-    "anti-inverse": "C12_inverse_cache_names_refuted",
-    "under-inverse": "C12_inverse_cache_names_refuted",
-    "zip-fast-fn": "C12_zip_cache_names_refuted",
+    "un-inverse": "C12_inverse_cache_transparent",
+    "anti-inverse": "C12_inverse_cache_transparent",
+    "under-inverse": "C12_inverse_cache_transparent",
+    "un-inverse:spans-len": "C12_inverse_cache_spans_len_refuted",
+    "anti-inverse:spans-len": "C12_inverse_cache_spans_len_refuted",
+    "under-inverse:spans-len": "C12_inverse_cache_spans_len_refuted",
+    "zip-fast-fn": "C12_zip_cache_transparent",
     "purity": "C12_purity_cache_refuted",
     "sig": "C12_sig_cache_sufficient",
     "pre-eval": "C12_pre_eval_cache_sufficient",
@@ -76,8 +79,11 @@ def run(r):
                     beh_mism.append(c)
             if c["un_eq"] in (0, 1):
                 stats["un_compared"] += 1
-                if inv_same == 1 and c["un_eq"] == 0:
+                # (the inversion also reads asm.spans.len(): inv_deps_l; pairs built across two assemblies can differ there)
+                if inv_same == 1 and c["un_eq"] == 0 and c["lx"] == c["ly"]:
                     dep_mism.append(("un-inverse", c))
+                if inv_same == 1 and c["un_eq"] == 0 and c["lx"] != c["ly"]:
+                    stats["differ_by_spans_len_only"] = stats.get("differ_by_spans_len_only", 0) + 1
                 if inv_same == 0:
                     stats["deps_differ_and_un_differs" if c["un_eq"] == 0 else "deps_differ_but_un_equal"] += 1
             if c["rsig_eq"] != 2:
@@ -125,8 +131,18 @@ def run(r):
     summ = [l for l in lines if l.get("summary")]
     viols = [l for l in lines if "violation" in l]
     if rc != 0 or not summ:
-        r.broken_obligation("search-harness", "c12 search failed to run", (out[-1000:] + err[-2000:]))
-        return
+        # the harness process died (e.g. a native stack overflow while running a history): what it found so far still counts
+        last = [l for l in err.split("\n") if l.startswith("@@HIST ")]
+        hist = json.loads(last[-1][7:]) if last else None
+        r.broken_obligation("search-harness", "c12 search died (rc %s) while running the history %s" % (rc, json.dumps(hist, ensure_ascii=False)), (out[-1000:] + err[-2000:]))
+        if hist:
+            r.violation("history-kills-process", "running the history %s in one thread kills the process (%s)" % (json.dumps(hist, ensure_ascii=False), err.strip().split("\n")[-1][:200]),
+                        {"history": hist, "stderr_tail": err[-600:], "cmd": "c12 hist <programs>"}, theorem="C12_memo_transparent")
+        counts = {}
+        for v in viols:
+            counts[v["violation"]] = counts.get(v["violation"], 0) + 1
+        summ = [{"evaluations": 0, "histories": len(last), "compared": 0, "skipped_nondeterministic": 0, "distinct_programs": 0, "corpus_chunks": 0,
+                 "thread_cases": 0, "families": {}, "violation_counts": counts}]
     s = summ[0]
     r.coverage["search"] = {k: s[k] for k in ("evaluations", "histories", "compared", "skipped_nondeterministic", "distinct_programs",
                                                  "corpus_chunks", "thread_cases", "families", "violation_counts")}
@@ -145,9 +161,8 @@ def run(r):
                     theorem=THEOREM_OF.get(cache, "C12_memo_transparent"))
         r.sample({"history": v["history"], "in_history": v["hist"][:200], "fresh_thread": v["fresh"][:200], "key": key})
     # the refutation theorems speak about the current code: their real witnesses must still fail
-    expected = {"cache:purity/error": "C12_purity_cache_refuted", "cache:un-inverse/name": "C12_inverse_cache_names_refuted",
-                "cache:zip-fast-fn/name": "C12_zip_cache_names_refuted"}
-    stale = [k for k in expected if k not in s["violation_counts"]]
+    expected = {"cache:purity/error": "C12_purity_cache_refuted", "cache:un-inverse:spans-len/position": "C12_inverse_cache_spans_len_refuted"}
+    stale = [k for k in expected if k not in s["violation_counts"]] if rc == 0 else []   # (a search that died is incomplete)
     r.coverage["refutation_witnesses_confirmed"] = [k for k in expected if k in s["violation_counts"]]
     if stale:
         r.broken_obligation("refutation-witness-stale", "the real witnesses of %s no longer fail on the implementation: Memo.v models keys the code no longer has" % [expected[k] for k in stale],
